@@ -185,17 +185,48 @@ def node_of(x) -> N:
     return const(x)
 
 
+def _isinf(o):
+    return isinstance(o, (float, np.floating)) and math.isinf(o)
+
+
+def _sign_of(s):
+    """+1 / -1 / 0 for a Sym (forks when it depends on variables)."""
+    sg = ground_sign(s.n)
+    if sg is not None:
+        return sg
+    return 1 if (s > 0) else (-1 if (s < 0) else 0)
+
+
+def _inf_arith(name, s, o):
+    """IEEE semantics of an operation between a finite symbolic real s and o = +-inf."""
+    if name in ("__add__", "__radd__", "__rsub__"):
+        return o
+    if name == "__sub__":
+        return -o
+    if name in ("__mul__", "__rmul__", "__rtruediv__"):
+        sg = _sign_of(s)
+        if sg == 0:
+            return NAN
+        return o * sg
+    if name == "__truediv__":
+        return Sym(dag.ZERO)
+    raise NotEncodable(f"{name} with infinity")
+
+
 def _arr(f):
+    name = f.__name__
+
     def g(s, o):
         if isinstance(o, np.ndarray) and o.shape != ():
             return NotImplemented
         if isinstance(o, (list, tuple)):
             return NotImplemented
-        try:
-            return f(s, o)
-        except NotEncodable:
-            raise
-    g.__name__ = f.__name__
+        if isinstance(o, NaNMarker):
+            return o
+        if _isinf(o) and name not in ("__pow__", "__rpow__", "__floordiv__", "__mod__"):
+            return _inf_arith(name, s, float(o))
+        return f(s, o)
+    g.__name__ = name
     return g
 
 
@@ -369,6 +400,8 @@ class Sym:
         return Sym(dag.fn("exp", s.n))
 
     def log(s):
+        if s.n is dag.ZERO:
+            return float("-inf")
         return Sym(dag.fn("log", s.n))
 
     def sinh(s):
@@ -454,7 +487,10 @@ def _div(a: N, b: N):
     if b.op == "const" and dag.cis0(dag.cval(b)):
         if a.op == "const" and dag.cis0(dag.cval(a)):
             return NAN
-        raise NotEncodable("division of a non-zero value by the constant 0 (inf)")
+        sg = _sign_of(Sym(a))          # x / 0 = +-inf by the sign of x (IEEE, divisor +0)
+        if sg == 0:
+            return NAN
+        return float("inf") * sg
     return Sym(dag.div(a, b))
 
 
